@@ -232,6 +232,13 @@ func (w *Worker) chanRecv(fr *frame, ch *Chan, commaOk bool) value {
 	if ch == nil {
 		panic(engineError{"receive from nil channel (blocks forever)"})
 	}
+	if ch.ticker {
+		// a time.Ticker channel: a tick is always ready (the harness controls the clock)
+		if commaOk {
+			return tuple{zero(ch.elemT), true}
+		}
+		return zero(ch.elemT)
+	}
 	s := w.scheduler()
 	me := s.cur
 	ret := func(v value, ok bool) value {
@@ -312,6 +319,19 @@ func registerSched(e *Engine) {
 		}
 		return nil
 	})
+	reg("os/signal.Notify", func(fr *frame, a []value) value { return nil })
+	reg("os/signal.Stop", func(fr *frame, a []value) value { return nil })
+	reg("time.NewTicker", func(fr *frame, a []value) value {
+		tt := fr.fn.Signature.Results().At(0).Type() // *time.Ticker
+		st := zero(deref(tt)).(structure)
+		elem := deref(tt).Underlying().(*types.Struct).Field(0).Type().Underlying().(*types.Chan).Elem()
+		st[0] = &Chan{ticker: true, elemT: elem}
+		var cell value = st
+		return &cell
+	})
+	reg("(*time.Ticker).Stop", func(fr *frame, a []value) value { return nil })
+	reg("(*time.Ticker).Reset", func(fr *frame, a []value) value { return nil })
+	reg("os.Exit", func(fr *frame, a []value) value { panic(pathEnd{"os.Exit"}) })
 	reg("(*sync.Mutex).Lock", func(fr *frame, a []value) value { return nil })
 	reg("(*sync.Mutex).Unlock", func(fr *frame, a []value) value { return nil })
 	reg("(*sync.RWMutex).Lock", func(fr *frame, a []value) value { return nil })
